@@ -32,14 +32,12 @@
 (***************************************************************************)
 EXTENDS Resolve, Json
 
-CONSTANTS MaxFiles,      \* 1 .. 4
-          Schemes,       \* subset of {"std", "same23", "same34", "dotted"}
-          MaxChain,      \* 0 .. 4
-          DKinds,        \* subset of {"enum", "struct", "union", "exception", "i32", "string", "list", "map"}
-          RMode,         \* "main": references only in the main file; "all": in every file
-          SecPer,        \* number of secondary combinations per core case (of 112)
+CONSTANTS Plans,         \* set of [files, schemes, chain, dkinds, rmode, secper, perm]:
+                         \*   files 1..4; schemes subset of {"std","same23","same34","dotted"}; chain 0..4 (typedefs);
+                         \*   dkinds subset of {"enum","struct","union","exception","i32","string","list","map"};
+                         \*   rmode "main" (references only in the main file) | "all"; secper = secondary combinations
+                         \*   per core case (of 224); perm "none" | "rev" | "light" | "full"
           Seed,
-          PermMode,      \* "none" | "light" | "full"
           WithNeg        \* BOOLEAN: include the hand-written programs (negative / special)
 
 -----------------------------------------------------------------------------
@@ -67,8 +65,8 @@ SchemePres(s) ==
     [] s = "dotted" -> <<"m", "a", "a.b", "c">>
 SchemeOK(s, nf) == CASE s = "std" -> TRUE [] s = "same23" -> nf >= 3 [] s = "same34" -> nf = 4 [] s = "dotted" -> nf >= 3
 
-Groups == UNION {{[k |-> "grp", nf |-> nf, E |-> E, scheme |-> s] : E \in Dags(nf), s \in {s \in Schemes : SchemeOK(s, nf)}}
-                 : nf \in 1 .. MaxFiles}
+Groups == UNION {UNION {{[k |-> "grp", plan |-> pl, nf |-> nf, E |-> E, scheme |-> s]
+                         : E \in Dags(nf), s \in {s \in pl.schemes : SchemeOK(s, nf)}} : nf \in 1 .. pl.files} : pl \in Plans}
 
 \* ---- chains
 Virtual(dk) == dk \in {"i32", "string", "list", "map"}
@@ -86,21 +84,22 @@ KindNo(dk) == CASE dk = "enum" -> 1 [] dk = "struct" -> 2 [] dk = "union" -> 3 [
                 [] dk = "i32" -> 5 [] dk = "string" -> 6 [] dk = "list" -> 7 [] dk = "map" -> 8
 CoreHash(g, R, k, dk, loc) == R * 5 + k * 17 + KindNo(dk) * 3 + SumSeq(loc) * 7 + Cardinality(g.E) * 13 + g.nf
 
-\* ---- secondary dimensions: 2 x 7 x 4 x 2 = 112 combinations, addressed by a number
+\* ---- secondary dimensions: 2 x 7 x 4 x 2 x 2 = 224 combinations, addressed by a number
 PfxSeq == <<"none", "struct", "enum", "typedef", "const", "service", "enumKC">>
 SvcSeq == <<"inc1", "local", "incL", "none">>
 OrdSeq == <<"asc", "desc">>
 SecOf(i) == [no |-> i, decoy |-> (i % 2 = 1), pfx |-> PfxSeq[((i \div 2) % 7) + 1], svc |-> SvcSeq[((i \div 14) % 4) + 1],
-             ord |-> OrdSeq[((i \div 56) % 2) + 1]]
-SecNos(h) == {(h * 37 + Seed * 11 + t * 29) % 112 : t \in 0 .. (SecPer - 1)}
+             ord |-> OrdSeq[((i \div 56) % 2) + 1],
+             kr |-> ((i \div 112) % 2 = 0)]      \* kr: R has a constant referring to a constant of each of its includes
+SecNos(h, per) == {(h * 37 + Seed * 11 + t * 29) % 224 : t \in 0 .. (per - 1)}
 
 Subs(g) ==          \* sub-groups [g, R, k, dk], only there to spread the work over TLC's workers
-  UNION {UNION {{[k |-> "sub", g |-> g, R |-> R, ck |-> k, dk |-> dk] : dk \in {dk \in DKinds : NElems(k, dk) >= 1}}
-                : k \in 0 .. MaxChain} : R \in (IF RMode = "main" THEN {1} ELSE 1 .. g.nf)}
+  UNION {UNION {{[k |-> "sub", g |-> g, R |-> R, ck |-> k, dk |-> dk] : dk \in {dk \in g.plan.dkinds : NElems(k, dk) >= 1}}
+                : k \in 0 .. g.plan.chain} : R \in (IF g.plan.rmode = "main" THEN {1} ELSE 1 .. g.nf)}
 Metas(s) ==
   LET g == s.g IN
   UNION {{[fam |-> "gen", nf |-> g.nf, E |-> Asc2(g.E), scheme |-> g.scheme, R |-> s.R, k |-> s.ck, dk |-> s.dk, loc |-> loc,
-           sec |-> SecOf(i)] : i \in SecNos(CoreHash(g, s.R, s.ck, s.dk, loc))}
+           sec |-> SecOf(i)] : i \in SecNos(CoreHash(g, s.R, s.ck, s.dk, loc), g.plan.secper)}
          : loc \in Placements(g.E, s.R, NElems(s.ck, s.dk))}
 
 -----------------------------------------------------------------------------
@@ -144,7 +143,9 @@ SvcHost(m) ==
     [] m.sec.svc = "local" -> m.R
     [] m.sec.svc = "inc1" -> IF Len(incs) = 0 THEN m.R ELSE incs[1]
     [] m.sec.svc = "incL" -> IF Len(incs) = 0 THEN m.R ELSE incs[Len(incs)]
-PfxName(m) == LET incs == MIncs(m, m.R) IN IF Len(incs) = 0 THEN "" ELSE MPre(m, incs[1])
+\* (a base name with a dot cannot be the name of a definition)
+PfxName(m) == LET incs == MIncs(m, m.R) IN
+              IF Len(incs) = 0 \/ (m.scheme = "dotted" /\ incs[1] = 3) THEN "" ELSE MPre(m, incs[1])
 PfxDefs(m) ==
   LET P == PfxName(m)
       incs == MIncs(m, m.R) IN
@@ -184,7 +185,8 @@ RefDefs(m) ==
              ConstD("KM", MapT(H, H), VMap(<<<<VId(sp[1]), VId(sp[Len(sp)])>>>>))>>
       ELSE <<>>)
   \o <<ConstD("KR0", Base("i32"), VId(<<KCName(R)>>))>>
-  \o [j \in DOMAIN incs |-> ConstD("KR" \o ToString(j), Base("i32"), VId(<<MPre(m, incs[j]), KCName(incs[j])>>))]
+  \o (IF m.sec.kr THEN [j \in DOMAIN incs |-> ConstD("KR" \o ToString(j), Base("i32"), VId(<<MPre(m, incs[j]), KCName(incs[j])>>))]
+      ELSE <<>>)
   \o PfxDefs(m)
 
 FileDefs(m, g) ==
@@ -264,12 +266,28 @@ HandProg(name) ==
          [files |-> <<F1("m.thrift", "m", <<2, 3>>, <<TypedefD("T", Ref("b", "TB"))>>),
                       F1("a.thrift", "a", <<>>, <<TypedefD("TA", I32)>>),
                       F1("b.thrift", "b", <<>>, <<TypedefD("TB", I32)>>)>>]
-HandNames == {"transitive-type", "transitive-value", "undefined-local", "const-as-type", "service-as-type", "typedef-cycle",
+UsedHand(name) ==      \* m includes a and b; exactly one thing refers to a; nothing refers to b
+  LET mdefs == CASE name = "used-by-extends" -> <<SvcD("V", Ref("a", "B"), <<>>)>>
+                 [] name = "used-by-const" -> <<ConstD("K", I32, VId(<<"a", "KC">>))>>
+                 [] name = "used-by-enum-value" -> <<ConstD("K", I32, VId(<<"a", "E", "V1">>))>>
+                 [] name = "used-by-typedef-enum-value" -> <<ConstD("K", I32, VId(<<"a", "TE", "V1">>))>>
+                 [] name = "used-by-type" -> <<SLD("struct", "S", <<Field("f", Ref("a", "E"), NoV)>>)>>
+                 [] name = "used-by-container-element" -> <<SLD("struct", "S", <<Field("f", MapT(Base("string"), ListT(Ref("a", "TE"))), NoV)>>)>>
+                 [] name = "used-by-throws" -> <<SvcD("V", NoT, <<Fn("f", NoT, <<>>, <<Field("e", Ref("a", "X"), NoV)>>)>>)>>
+                 [] name = "used-by-nothing" -> <<SLD("struct", "S", <<Field("f", I32, NoV)>>)>> IN
+  [files |-> <<F1("m.thrift", "m", <<2, 3>>, mdefs),
+               F1("a.thrift", "a", <<>>, <<SvcD("B", NoT, <<>>), ConstD("KC", I32, VInt(1)), EnumD("E", <<"V1">>),
+                                           TypedefD("TE", Ref("", "E")), SLD("exception", "X", <<>>)>>),
+               F1("b.thrift", "b", <<>>, <<SvcD("B", NoT, <<>>), ConstD("KC", I32, VInt(1)), EnumD("E", <<"V1">>),
+                                           TypedefD("TE", Ref("", "E")), SLD("exception", "X", <<>>)>>)>>]
+UsedHandNames == {"used-by-extends", "used-by-const", "used-by-enum-value", "used-by-typedef-enum-value", "used-by-type",
+                  "used-by-container-element", "used-by-throws", "used-by-nothing"}
+HandNames == UsedHandNames \cup {"transitive-type", "transitive-value", "undefined-local", "const-as-type", "service-as-type", "typedef-cycle",
               "typedef-cycle-across", "extends-struct", "extends-missing-inc", "inc-missing-type", "enum-value-missing",
               "inc-enum-value-missing", "bare-enum-value", "struct-dot-value", "dup-names",
               "deep-containers", "local-td-of-included-enum", "same-name-everywhere", "bool-idents", "unused-include"}
 
-Build(m) == IF m.fam = "gen" THEN BuildGen(m) ELSE HandProg(m.name)
+Build(m) == IF m.fam = "gen" THEN BuildGen(m) ELSE IF m.name \in UsedHandNames THEN UsedHand(m.name) ELSE HandProg(m.name)
 
 -----------------------------------------------------------------------------
 \* ---- permutations of the definitions: ord[f] is a permutation of DOMAIN defs; new defs[i] = old defs[ord[f][i]]
@@ -287,7 +305,7 @@ KindOrd(p, f, K, pi) ==       \* permute only the definitions of the kinds K in 
 Rot(n) == [i \in 1 .. n |-> (i % n) + 1]
 KindSets == {{"typedef"}, {"const"}, {"enum"}, {"struct"}, {"union"}, {"exception"}, {"service"}}
 KindTag(K) == CHOOSE k \in K : TRUE
-PermOrds(p) ==      \* set of [name, ord] (the identity excluded)
+PermOrds(p, PermMode) ==      \* set of [name, ord] (the identity excluded)
   LET rev == {[name |-> "rev", ord |-> RevOrd(p)]}
       kp(f, K) == LET n == Len(KindPos(p, f, K)) IN
                   IF n < 2 THEN {}
@@ -307,10 +325,10 @@ DistinctOrds(S) == {o \in S : \A o2 \in S : o2.ord = o.ord => o2.name = o.name}
 \* ---- layer A evaluated once per program (kept in the case record; identical for every permutation because node keys
 \*      and the declarative semantics do not mention positions)
 IncsOfRefs(al) == {r.idx + 1 : r \in al}          \* NoRef has idx -1: position 0 = the file itself
-ExpTypes(p) == [f \in 1 .. NFiles(p) |-> {[key |-> n.key, al |-> AllowedType(p, f, n.t)] : n \in FileTypeNodes(p, f)}]
+ExpTypes(p, sym) == [f \in 1 .. NFiles(p) |-> {[key |-> n.key, al |-> AllowedTypeS(p, sym, f, n.t)] : n \in FileTypeNodes(p, f)}]
 ExpIdNode(key, T, al) == [key |-> key, nt |-> Cardinality(T), al |-> al]
-ExpIdNodeT(p, f, n, T) == ExpIdNode(n.key, T, AllowedExtraT(p, f, n.segs, T))
-ExpIds(p) == [f \in 1 .. NFiles(p) |-> {ExpIdNodeT(p, f, n, ValTargets(p, f, n.segs)) : n \in FileIdNodes(p, f)}]
+ExpIdNodeT(p, sym, f, n, T) == ExpIdNode(n.key, T, AllowedExtraS(p, sym, f, n.segs, T))
+ExpIds(p, sym) == [f \in 1 .. NFiles(p) |-> {ExpIdNodeT(p, sym, f, n, ValTargetsS(p, sym, f, n.segs)) : n \in FileIdNodes(p, f)}]
 ExpExts(p) == [f \in 1 .. NFiles(p) |-> {[key |-> n.key, al |-> AllowedExt(p, f, n.t)] : n \in FileExtNodes(p, f)}]
 IncSets(types, ids, exts) == {IncsOfRefs({r.ref : r \in n.al}) : n \in types} \cup {IncsOfRefs(n.al) : n \in exts}
                              \cup {IncsOfRefs(n.al) : n \in ids}
@@ -320,7 +338,8 @@ ExpOf3(p, types, ids, exts) ==
    ids |-> UNION {ids[f] : f \in 1 .. NFiles(p)},
    exts |-> UNION {exts[f] : f \in 1 .. NFiles(p)},
    used |-> [f \in 1 .. NFiles(p) |-> UsedOf(p, f, IncSets(types[f], ids[f], exts[f]))]]
-ExpOf(p) == ExpOf3(p, ExpTypes(p), ExpIds(p), ExpExts(p))
+ExpOfS(p, sym) == ExpOf3(p, ExpTypes(p, sym), ExpIds(p, sym), ExpExts(p))
+ExpOf(p) == ExpOfS(p, Sym(p))
 StatusOf(p, exp) ==
   IF DupNames(p) THEN "dup"
   ELSE IF (\E n \in exp.types : n.al = {}) \/ (\E n \in exp.ids : n.nt = 0) \/ (\E n \in exp.exts : n.al = {}) THEN "undefined"
@@ -343,8 +362,8 @@ NullS == [mk |-> {}, n2c |-> <<>>, ty |-> <<>>, ex |-> <<>>, sref |-> <<>>, used
 NullRes == [err |-> "-", ty |-> <<>>, ex |-> <<>>, sref |-> <<>>, used |-> {}]
 \* A case is made in two steps (built, then analysed) so that the program is a plain value of the state when layer A
 \* is evaluated over it (TLC does not cache LET / argument values inside an action).
-Built(m) == [k |-> "built", meta |-> m, prog |-> Build(m)]
-Analysed(b) == [k |-> "case", meta |-> b.meta, perm |-> "id", ord |-> IdOrd(b.prog), prog |-> b.prog, exp |-> ExpOf(b.prog),
+Built(m, pm) == [k |-> "built", meta |-> m, pm |-> pm, prog |-> Build(m)]
+Analysed(b) == [k |-> "case", meta |-> b.meta, pm |-> b.pm, perm |-> "id", ord |-> IdOrd(b.prog), prog |-> b.prog, exp |-> ExpOf(b.prog),
                 baseres |-> NullRes]
 
 Init == c = [k |-> "root"] /\ S = NullS
@@ -355,14 +374,14 @@ FanGroups ==
   /\ S' = NullS
 FanSubs == c.k = "grp" /\ c' \in Subs(c) /\ S' = NullS
 FanCases ==
-  /\ \/ c.k = "sub" /\ \E m \in Metas(c) : c' = Built(m)
-     \/ c.k = "hand" /\ \E nm \in HandNames : c' = Built([fam |-> "hand", name |-> nm])
+  /\ \/ c.k = "sub" /\ \E m \in Metas(c) : c' = Built(m, c.g.plan.perm)
+     \/ c.k = "hand" /\ \E nm \in HandNames : c' = Built([fam |-> "hand", name |-> nm], "rev")
   /\ S' = NullS
 Analyse == c.k = "built" /\ c' = Analysed(c) /\ S' = InitB(c.prog)
 Finished == c.k = "case" /\ Done(S)
 FanPerms ==        \* from the finished run of the identity order, which every permuted run is compared with
   /\ Finished /\ c.perm = "id"
-  /\ \E o \in PermOrds(c.prog) :
+  /\ \E o \in PermOrds(c.prog, c.pm) :
         /\ o.ord # c.ord
         /\ c' = [c EXCEPT !.perm = o.name, !.ord = o.ord, !.prog = Permute(c.prog, o.ord), !.baseres = BRes(S)]
   /\ S' = InitB(c'.prog)
@@ -393,6 +412,9 @@ BRefinesA ==
 
 \* the final resolution state does not depend on the order of the definitions
 OrderIndependent == (Finished /\ c.perm # "id") => BRes(S) = c.baseres
+
+\* the tabulated denotation (Sym) used for the emitted expectation agrees with the recursive definitions of layer A
+TableAgrees == (c.k = "case" /\ c.perm = "id" /\ S.n = 0) => SymConsistent(c.prog, Sym(c.prog))
 
 \* the retry loop makes progress or stops: bounded run length
 Terminates == S.n <= 120
